@@ -256,6 +256,7 @@ import BGV
 #print axioms BGV.C17_dijkstra_no_ub
 #print axioms BGV.C17_multigraph_observers_no_ub
 #print axioms BGV.C17_derived_ctor_no_ub
+#print axioms BGV.C17_pathTo_no_ub
 
 -- C19
 #print axioms BGV.C19_bfs_scans
